@@ -56,6 +56,7 @@ class SimKernel(object):
         self.hangs = []         # calls that would have blocked for ever on a blocking descriptor
         self.sig_handlers = {}  # signal number -> handler installed through signal.signal()
         self.reaped = []        # pids returned by waitpid, in order
+        self.owner_of = {}      # pid -> index of the process that forked it
         self.jobstopped = []    # live children stopped by SIGSTOP/SIGTSTP and not yet reported to a WUNTRACED waiter
 
     def _fault(self, name):
@@ -154,6 +155,7 @@ class SimKernel(object):
         self.children_fds[pid] = mine
         self.last_pipes = []
         who = self.fork_owner() if self.fork_owner else -1
+        self.owner_of[pid] = who
         self.trace.append(('fork', who, pid))
         return pid
 
@@ -278,12 +280,18 @@ class FakeOS(object):
         return self._k.pipe()
 
     def read(self, fd, n):
+        if not isinstance(fd, int):
+            raise TypeError("an integer is required (got type %s)" % type(fd).__name__)
         return self._k.read(fd, n)
 
     def write(self, fd, data):
+        if not isinstance(fd, int):
+            raise TypeError("an integer is required (got type %s)" % type(fd).__name__)
         return self._k.write(fd, data)
 
     def close(self, fd):
+        if not isinstance(fd, int):      # os.close(None) is a TypeError, not an OSError
+            raise TypeError("an integer is required (got type %s)" % type(fd).__name__)
         return self._k.close(fd)
 
     def getpid(self):
